@@ -55,6 +55,7 @@ fn e1(name: &str, desc: String, grammars: Vec<G>) -> B {
             pair_mode: None,
             clone_mode: false,
             explicit_inputs: None,
+            static_set: None,
         },
     }
 }
@@ -98,6 +99,10 @@ impl B {
     }
     fn inputs(mut self, v: Vec<Vec<Tok>>) -> Self {
         self.u.explicit_inputs = Some(v);
+        self
+    }
+    fn static_set(mut self, s: &str) -> Self {
+        self.u.static_set = Some(s.to_string());
         self
     }
     fn clone_mode(mut self) -> Self {
@@ -157,6 +162,7 @@ pub fn units(prop: &str, tier: Tier) -> Option<Vec<Unit>> {
             if !q {
                 v.push(class("kcore-deep", &en::k_core(), 6).alarm(alarm).unit());
             }
+            v.push(e1("k01-statically-typed", "statically typed (generated, unboxed) parsers: every K01 grammar with <= 2 nodes and a stride of the 3-node ones".into(), vec![]).static_set("c01").len(pick(4, 5)).alarm(alarm).unit());
             v
         }
         "C02" => {
@@ -275,6 +281,7 @@ pub fn units(prop: &str, tier: Tier) -> Option<Vec<Unit>> {
             vec![
                 class("kext-recovery", &en::k_ext(), pick(4, 4)).len(pick(4, 5)).alarm(alarm).unit(),
                 class("knd-nested-delimiters", &en::k_nd(), pick(3, 4)).alpha(&BRACKETS, pick(4, 5)).alarm(alarm).unit(),
+                e1("kext-statically-typed", "statically typed parsers: extended-class grammars (recovery, validate, labels, map_err, separators) with 2 nodes and a stride of the 3-node ones".into(), vec![]).static_set("ext").len(pick(4, 5)).alarm(alarm).unit(),
             ]
         }
         "C09" => eng_pratt::units(tier)
@@ -375,6 +382,11 @@ pub fn units(prop: &str, tier: Tier) -> Option<Vec<Unit>> {
                 .probes(NOPROBE)
                 .pairs(PairMode::Exact)
                 .unit(),
+                e1("memoized-statically-typed", "statically typed parsers: every Kmemo grammar (<= 3 nodes) and Kcore grammar (<= 2 nodes) x every non-empty subset of nodes memoized (nested, adjacent and zero-sized placements share addresses only in this form); compared with the model, in which memoized() is the identity".into(), vec![])
+                    .static_set("memo")
+                    .len(pick(4, 5))
+                    .alarm(ACC | VAL | EXT | EMI | EMC | PSP | PFO | PEX | CHK | PAN | NOE)
+                    .unit(),
                 rec_unit("leftrec", tier),
             ]
         }
